@@ -1,4 +1,4 @@
-(* Naming.v — luqum.naming: TreeAutoNamer (next_name, auto_name), element_from_path.
+(* Naming.v — luqum.naming: TreeAutoNamer (next_name, _clear_names, auto_name), element_from_path.
    Executable definitions only. *)
 Require Import Base Decimal Tree GenTree GenVisitors GenNaming Visitor.
 
@@ -27,6 +27,27 @@ Definition next_name (letters : str) (name : option str) : option str :=
               end
           end
       end
+  end.
+
+(* TreeAutoNamer._clear_names: the name attribute is removed from the node (delattr when get_name is not
+   None — the model's name field becomes None either way), then from every node below it, through
+   `.children` *)
+Definition clear_list (f : item -> item) :=
+  fix go (l : list item) : list item :=
+    match l with
+    | [] => []
+    | c :: l' => f c :: go l'
+    end.
+
+Fixpoint clear_names (t : item) : item :=
+  let via (cs : list item) := rebuild (set_name t None) (clear_list clear_names cs) in
+  match t with
+  | Term _ _ _ | NoneItem _ => via []
+  | SearchField _ _ e | Grp _ _ e | Boost _ e _ _ => via [e]
+  | Fuzzy _ x _ _ | Proximity _ x _ _ => via [x]
+  | Unary _ _ a | ORange _ _ a _ => via [a]
+  | Range _ lo hi _ _ => via [lo; hi]
+  | Op _ _ ops => via ops
   end.
 
 Section AutoName.
@@ -99,8 +120,9 @@ Section AutoName.
         end
     end.
 
-  (* TreeAutoNamer.visit *)
-  Definition auto_name_with (t : item) : option (item * list (str * path)) :=
+  (* TreeAutoNamer.visit after the names were cleared: the tracked visit, then the root alone when the
+     mapping is empty *)
+  Definition name_tree (t : item) : option (item * list (str * path)) :=
     match an_go t [] None with
     | None => None
     | Some (t', st, mp) =>
@@ -112,6 +134,11 @@ Section AutoName.
         | _ => Some (t', mp)
         end
     end.
+
+  (* TreeAutoNamer.visit: every name of a previous naming is removed first (_clear_names), then the
+     tree is named *)
+  Definition auto_name_with (t : item) : option (item * list (str * path)) :=
+    name_tree (clear_names t).
 End AutoName.
 
 (* the namer's only specific handler is visit_base_operation: a class is "handled" when dispatch
